@@ -735,3 +735,82 @@ Proof.
     destruct (add_name_total A cn) as (n' & a' & E). rewrite E.
     specialize (IH (set_add n' a')). destruct (port_names_go (set_add n' a') ports); congruence.
 Qed.
+
+(* ================================================================== follow-up: renaming, checked plan operations *)
+Lemma rn_nil d : rn [] d = d.
+Proof. reflexivity. Qed.
+Lemma rename_frag_nil f : rename_frag [] f = f.
+Proof.
+  revert f. fix IH 1. intros [pre doms used subs]. simpl. rewrite !map_id. f_equal.
+  induction subs as [|s subs IHs]; simpl; [reflexivity|]. rewrite IH, IHs. reflexivity.
+Qed.
+
+Lemma add_file_checked_ok fs k c fs' : add_file_checked fs k c = FOk fs' ->
+  add_file fs k c = Some fs' /\ is_abs k = false.
+Proof.
+  unfold add_file_checked, add_file. destruct (mem k (map fst fs)); [discriminate|].
+  destruct (is_abs k); [discriminate|]. intro H. inversion H. auto.
+Qed.
+
+Lemma extract_checked_ok fs : forall d,
+  forallb (fun f => negb (is_abs (fst f) || has_dotdot (fst f))) fs = true ->
+  extract_checked d fs = Some (extract d fs).
+Proof.
+  induction fs as [|[k c] fs IH]; intros d H; simpl in *; [reflexivity|].
+  apply andb_true_iff in H as [H1 H2]. apply negb_true_iff in H1. rewrite H1. unfold extract in *. simpl. apply IH, H2.
+Qed.
+Lemma extract_checked_sound fs : forall d d', extract_checked d fs = Some d' -> d' = extract d fs.
+Proof.
+  induction fs as [|[k c] fs IH]; intros d d' H; simpl in *; [inversion H; reflexivity|].
+  destruct (is_abs k || has_dotdot k); [discriminate|]. unfold extract in *. simpl. apply IH, H.
+Qed.
+
+(* ================================================================== follow-up: a concrete step for the rerun theorem *)
+Lemma obs_slot_eq s1 s2 : obs_slot s1 = obs_slot s2 ->
+  match s1, s2 with
+  | SSig g1, SSig g2 => sg_init g1 = sg_init g2 /\ sg_curr g1 = sg_curr g2 /\ sg_next g1 = sg_next g2
+  | SMem m1, SMem m2 => mm_init m1 = mm_init m2 /\ mm_data m1 = mm_data m2 /\ mm_wq m1 = mm_wq m2
+  | _, _ => False
+  end.
+Proof.
+  destruct s1 as [g1|m1], s2 as [g2|m2]; simpl; intro H; inversion H; auto.
+Qed.
+
+Lemma commit_slot_obs s1 s2 : obs_slot s1 = obs_slot s2 -> obs_slot (commit_slot s1) = obs_slot (commit_slot s2).
+Proof.
+  intro H. apply obs_slot_eq in H. destruct s1 as [g1|m1], s2 as [g2|m2]; try contradiction; simpl.
+  - destruct H as (-> & _ & ->). reflexivity.
+  - destruct H as (-> & -> & ->). reflexivity.
+Qed.
+
+Lemma commit_from_obs pend l1 : forall l2 i, map obs_slot l1 = map obs_slot l2 ->
+  map obs_slot (commit_from i pend l1) = map obs_slot (commit_from i pend l2).
+Proof.
+  induction l1 as [|s1 l1 IH]; intros [|s2 l2] i H; simpl in *; try discriminate; [reflexivity|].
+  inversion H as [[H1 H2]]. f_equal; [|apply IH; exact H2].
+  destruct (existsb (Z.eqb i) pend); [apply commit_slot_obs; exact H1|exact H1].
+Qed.
+
+Lemma out_values_obs e1 e2 : observe e1 = observe e2 -> out_values e1 = out_values e2.
+Proof.
+  unfold observe, out_values. intro H. inversion H as [[Hs Hp Hn Hw Hpr Ht Ha Hr]]. f_equal.
+  clear - Hs. revert Hs. generalize (e_slots e2). induction (e_slots e1) as [|s1 l1 IH]; intros [|s2 l2] H;
+    simpl in *; try discriminate; [reflexivity|].
+  inversion H as [[H1 H2]]. rewrite (IH l2 H2). f_equal.
+  apply obs_slot_eq in H1. destruct s1, s2; try contradiction; destruct H1 as (_ & H1 & _); congruence.
+Qed.
+
+(* commit + timeline.advance reads only observed fields *)
+Lemma step_commit_advance_respects e1 e2 : observe e1 = observe e2 ->
+  observe (step_commit_advance e1) = observe (step_commit_advance e2) /\ out_values e1 = out_values e2.
+Proof.
+  intro H. split; [|apply out_values_obs; exact H].
+  unfold observe in H. inversion H as [[Hs Hp Hn Hw Hpr Ht Ha Hr]].
+  unfold step_commit_advance. rewrite Hp, Hw.
+  pose proof (commit_from_obs (e_pending e2) (e_slots e1) (e_slots e2) 0 Hs) as Hc.
+  destruct (nearest (map snd (e_wakers e2))); unfold observe; simpl; rewrite Hc; congruence.
+Qed.
+
+Lemma reset_rerun_commit_advance n e :
+  trace step_commit_advance out_values n (reset e) = trace step_commit_advance out_values n (fresh e).
+Proof. apply reset_rerun_same_trace. exact step_commit_advance_respects. Qed.
